@@ -8,10 +8,12 @@ package main
 import (
 	"bytes"
 	"fmt"
+	"strings"
 	"io"
 	"io/ioutil"
 	"net"
 	"os"
+	"sync"
 	"time"
 
 	"github.com/spf13/viper"
@@ -30,9 +32,13 @@ import (
 )
 
 func standInPeer(byCh map[byte]p2p.Reactor, descs []*p2p.ChannelDescriptor) (*p2p.Peer, func()) {
+	return standInPeerNamed("peerinput-attacker", byCh, descs)
+}
+
+func standInPeerNamed(secret string, byCh map[byte]p2p.Reactor, descs []*p2p.ChannelDescriptor) (*p2p.Peer, func()) {
 	c1, c2 := net.Pipe()
 	go io.Copy(ioutil.Discard, &readOnly{c2})
-	key := crypto.GenPrivKeyEd25519FromSecret([]byte("peerinput-attacker"))
+	key := crypto.GenPrivKeyEd25519FromSecret([]byte(secret))
 	info := &p2p.NodeInfo{PubKey: key.PubKey(), Moniker: "attacker", Network: csim.ChainID, RemoteAddr: "10.9.8.7:46656", ListenAddr: "10.9.8.7:46656", Version: "0.0.0"}
 	peer := p2p.VerifNewPeer(viper.New(), &addrConn{c1}, info, false, byCh, descs, func(p *p2p.Peer, r interface{}) {})
 	peer.Start()
@@ -80,7 +86,11 @@ func (r *runner) other(si int, st mbt.Step) bool {
 		return false
 	}
 	if wedge != nil {
-		r.fail(si, action, "property", true, "wedge:"+reactor+":"+class, wedge.Error(), want, got)
+		key := "wedge:" + reactor + ":" + class
+		if reactor == "bc" && strings.HasPrefix(class, "response-") {
+			key = "wedge:bcBlockResponse:" + strings.TrimPrefix(class, "response-")
+		}
+		r.fail(si, action, "property", true, key, wedge.Error(), want, got)
 		return false
 	}
 	if got != want {
@@ -101,6 +111,14 @@ type bcEnv struct {
 	stop     func()
 	executed []int64
 	blocks   map[int64]*types.Block
+	exMu     sync.Mutex
+	hung     bool // a Receive call never returned: the reactor / pool is blocked, nothing may be closed any more
+}
+
+func (e *bcEnv) executedHeights() []int64 {
+	e.exMu.Lock()
+	defer e.exMu.Unlock()
+	return append([]int64(nil), e.executed...)
 }
 
 func newBC() (*bcEnv, error) {
@@ -137,7 +155,9 @@ func newBC() (*bcEnv, error) {
 		return valSet.VerifyCommit(csim.ChainID, id, h, c)
 	})
 	e.bcR.SetBlockExecuter(func(b *types.Block, ps *types.PartSet, c *types.Commit) error {
+		e.exMu.Lock()
 		e.executed = append(e.executed, b.Height)
+		e.exMu.Unlock()
 		store.SaveBlock(b, ps, c)
 		return nil
 	})
@@ -154,6 +174,9 @@ func newBC() (*bcEnv, error) {
 }
 
 func (e *bcEnv) close() {
+	if e.hung {
+		return // the process ends anyway; Stop() could block behind the held lock
+	}
 	e.stop()
 	e.bcR.Stop()
 	e.sim.Close()
@@ -161,7 +184,20 @@ func (e *bcEnv) close() {
 }
 
 func (e *bcEnv) recv(o interface{}) (bool, interface{}, string) {
-	return recvOn(e.bcR, blockchain.BlockchainChannel, e.peer, wire.BinaryBytes(o))
+	return e.recvFrom(e.peer, wire.BinaryBytes(o))
+}
+
+// recvFrom is Receive on the peer's connection goroutine, time-bounded: a Receive that does not return within 6 s has
+// blocked that peer's recvRoutine for good (and whatever lock it holds).
+func (e *bcEnv) recvFrom(peer *p2p.Peer, bz []byte) (disc bool, pval interface{}, stack string) {
+	if e.hung {
+		return false, nil, ""
+	}
+	if !guarded(6*time.Second, func() { disc, pval, stack = recvOn(e.bcR, blockchain.BlockchainChannel, peer, bz) }) {
+		e.hung = true
+		return false, "Receive did not return within 6 s", ""
+	}
+	return
 }
 
 // announce makes the pool ask this peer for blocks 1..: returns when requesters 1 and 2 are assigned to it.
@@ -235,6 +271,8 @@ func runBC(class, want string) (got, detail string, wedge error) {
 		b := cloneBlock(e.blocks[1])
 		b.Header = nil
 		disc, pval, _ = e.recv(blockchain.VerifBlockResponse(b))
+	case "response-duplicate", "response-two-different", "response-nonassigned-peer", "response-unrequested-height":
+		return runBCResponse(e, class)
 	default:
 		// requested-*: the pool asked this peer for blocks 1 and 2
 		if err := e.announce(3); err != nil {
@@ -284,18 +322,21 @@ func runBC(class, want string) (got, detail string, wedge error) {
 			disc, pval = d2, p2
 		}
 		time.Sleep(settle) // poolRoutine verifies (and executes) in its own goroutine: a panic there ends this process
-		for k := 0; want == "Accept" && len(e.executed) == 0 && k < 80; k++ {
+		for k := 0; want == "Accept" && len(e.executedHeights()) == 0 && k < 80; k++ {
 			time.Sleep(100 * time.Millisecond)
 		}
 		if class == "requested-valid" {
-			if len(e.executed) == 0 || e.executed[0] != 1 {
-				return "Drop", "", fmt.Errorf("valid blocks 1 and 2 from the requested peer were not executed (executed: %v)", e.executed)
+			if len(e.executedHeights()) == 0 || e.executedHeights()[0] != 1 {
+				return "Drop", "", fmt.Errorf("valid blocks 1 and 2 from the requested peer were not executed (executed: %v)", e.executedHeights())
 			}
 			return "Accept", "", nil
 		}
-		if len(e.executed) > 0 {
-			return "Accept", fmt.Sprintf("executed %v", e.executed), nil
+		if len(e.executedHeights()) > 0 {
+			return "Accept", fmt.Sprintf("executed %v", e.executedHeights()), nil
 		}
+	}
+	if e.hung {
+		return "Drop", "", fmt.Errorf("BlockchainReactor.Receive never returned (blocked for good)")
 	}
 	time.Sleep(150 * time.Millisecond)
 	// no wedge: the pool still answers (its lock is free) and the reactor still serves a status request
@@ -312,6 +353,73 @@ func runBC(class, want string) (got, detail string, wedge error) {
 		return "Disconnect", fmt.Sprint(pval), wedge
 	}
 	return "Drop", "", wedge
+}
+
+// runBCResponse: block responses the pool did not ask for in that form, while block 1 is still waiting for block 2 (its
+// height is not popped yet): the same block twice from the assigned peer, two different blocks for one height, a block
+// from a peer the request was not assigned to, a block of a height nobody asked this peer for.  Then the NO-WEDGE oracle,
+// every step time-bounded: the pool answers GetStatus / PeekTwoBlocks, takes further honest responses, and the sync
+// still executes the chain.
+func runBCResponse(e *bcEnv, class string) (got, detail string, wedge error) {
+	if err := e.announce(3); err != nil {
+		return "setup-error", err.Error(), nil
+	}
+	b1 := cloneBlock(e.blocks[1])
+	resp := func(b *types.Block) []byte { return wire.BinaryBytes(blockchain.VerifBlockResponse(b)) }
+	var disc bool
+	var pval interface{}
+	switch class {
+	case "response-duplicate":
+		e.recvFrom(e.peer, resp(b1))
+		disc, pval, _ = e.recvFrom(e.peer, resp(cloneBlock(e.blocks[1])))
+	case "response-two-different":
+		e.recvFrom(e.peer, resp(b1))
+		other := cloneBlock(e.blocks[1])
+		other.Data.Txs = append(other.Data.Txs, types.Tx("another body"))
+		other.Header.DataHash = nil
+		disc, pval, _ = e.recvFrom(e.peer, resp(other))
+	case "response-nonassigned-peer":
+		p2, stop2 := standInPeerNamed("peerinput-bystander", map[byte]p2p.Reactor{blockchain.BlockchainChannel: e.bcR}, e.bcR.GetChannels())
+		defer stop2()
+		disc, pval, _ = e.recvFrom(p2, resp(b1))
+	case "response-unrequested-height":
+		far := cloneBlock(e.blocks[1])
+		far.Header.Height = 100000
+		disc, pval, _ = e.recvFrom(e.peer, resp(far))
+	}
+	if e.hung {
+		return "Drop", "", fmt.Errorf("BlockchainReactor.Receive never returned for the %s (the peer's recv routine is blocked; BlockPool.AddBlock holds the pool lock): fast sync is wedged", class)
+	}
+	if disc {
+		return "Disconnect", fmt.Sprint(pval), nil
+	}
+	// oracle 1: the pool's lock is free
+	if !guarded(5*time.Second, func() {
+		e.bcR.VerifPool().GetStatus()
+		e.bcR.VerifPool().PeekTwoBlocks()
+		e.bcR.VerifPool().IsCaughtUp()
+	}) {
+		e.hung = true
+		return "Drop", "", fmt.Errorf("BlockPool.GetStatus / PeekTwoBlocks / IsCaughtUp do not return within 5 s after the %s: the pool lock is held for good", class)
+	}
+	// oracle 2: further honest responses are taken and the chain is executed (block 3 needs a block 4 to be verified)
+	for h := int64(1); h <= 3; h++ {
+		e.recvFrom(e.peer, resp(cloneBlock(e.blocks[h])))
+		if e.hung {
+			return "Drop", "", fmt.Errorf("the honest response for block %d after the %s never returned from Receive: fast sync is wedged", h, class)
+		}
+	}
+	for k := 0; k < 120; k++ {
+		if ex := e.executedHeights(); len(ex) >= 2 {
+			break
+		}
+		time.Sleep(100 * time.Millisecond)
+	}
+	ex := e.executedHeights()
+	if len(ex) < 2 || ex[0] != 1 || ex[1] != 2 {
+		return "Drop", "", fmt.Errorf("after the %s the sync did not execute blocks 1 and 2 from honest responses within 12 s (executed %v)", class, ex)
+	}
+	return "Accept", fmt.Sprintf("executed %v", ex), nil
 }
 
 // ---------------------------------------------------------------------------------------------
